@@ -35,6 +35,14 @@ def check_case(case):
     ids = (tx.GetTxid(), tx.GetHash())
     csc = CScript(sc)
     for ht in case.get('hts') or range(256):
+        if ht in (5, 131):
+            # calls outside the function's domain (no amount, an amount that does not fit int64, an input that does not exist)
+            # may raise whatever they raise - but must leave nothing behind that colours the next valid call
+            for bad_kw, bad_idx in (({'amount': None}, idx), ({'amount': 2 ** 63}, idx), ({'amount': amount}, len(m['vin']) + 3)):
+                try:
+                    SignatureHash(csc, tx, bad_idx, ht, sigversion=SIGVERSION_WITNESS_V0, **bad_kw)
+                except Exception:
+                    pass
         want = RS.bip143(sc, m, idx, ht, amount)
         r = libx.call('bip143', SignatureHash, csc, tx, idx, ht, amount=amount, sigversion=SIGVERSION_WITNESS_V0)
         if r[1] != want:
@@ -44,7 +52,7 @@ def check_case(case):
                                 ht, idx, len(m['vin']), len(m['vout']), amount, m['locktime'], r[1].hex(), want.hex()))
     if tx.serialize() != before or (tx.GetTxid(), tx.GetHash()) != ids:
         raise Violation('mutated/tx', 'BIP143 hashing changed the transaction it was given')
-    if case['mutable']:
+    if case['mutable'] is True:
         # the digest follows in-place edits of the SAME transaction object (hash, edit, hash again)
         m2 = dict(m, vin=list(m['vin']), vout=list(m['vout']))
         for ed in case.get('edits', ['locktime', 'seq', 'value', 'prevout', 'version']):
@@ -87,7 +95,7 @@ def s_case(draw):
                                    b'\x51\x20' + h, b'\x51\x21\x02' + h + b'\x51\xae', b'\xab', b'\x51\xab\x52\xab', b'\x21\x03' + h + b'\xac',
                                    b'\x16\x00\x14' + h[:20], b'\x19\x76\xa9\x14' + h[:20] + b'\x88\xac', b'\x6a' + h[:4], b'\x4c', b'\x4d\xff']))
     c = {'tx': t, 'script': sc.hex(), 'idx': draw(st.integers(0, len(t['vin']) - 1)),
-         'amount': draw(gen.boundary_or_random(0, 2 ** 63 - 1)), 'mutable': draw(st.booleans())}
+         'amount': draw(gen.boundary_or_random(0, 2 ** 63 - 1)), 'mutable': draw(st.sampled_from([False, True, 'mixed']))}
     if draw(st.integers(0, 60)) == 0:
         c['script'] = draw(st.binary(min_size=16, max_size=16)).hex()
         c['script_rep'] = 4096 + draw(st.integers(0, 1))          # 65,536 / 65,552 bytes
